@@ -143,7 +143,7 @@ fn make_case(progs: &[Vec<L>], mailbox: Mailbox, work: Work, interval_with: bool
         desc,
         exec: ExecCfg { horizon: 4, ..ExecCfg::default() },
         bound,
-        scene: Box::new(ProgScene { attach: crate::progscene::attach_for(mailbox), spawn: SpawnCfg::plain(mailbox), roles: vec![role], clients, extra: X { interval_with }, oracle }),
+        scene: Box::new(ProgScene { variant: crate::progscene::current_variant(), attach: crate::progscene::attach_for(mailbox), spawn: SpawnCfg::plain(mailbox), roles: vec![role], clients, extra: X { interval_with }, oracle }),
     }
 }
 
@@ -230,6 +230,16 @@ fn cases(tier: Tier) -> Vec<Case> {
     v.extend(s.into_iter().enumerate().filter(|(i, c)| (tier == Tier::Thorough || i % 3 == 0)).map(|(_, mut c)| {
         // the attached stream is never ready, so the loop's select! tie-break cannot change anything:
         // it is not explored as a choice here (C13 explores it, with streams that do yield)
+        c.exec.select_choice = false;
+        c
+    }));
+    // ... and (every fourth case; thorough: every second) once more under a configuration that must
+    // not matter: a handler timeout nothing comes near, and the recreate strategy
+    let nv = crate::progscene::Variant { generous_timeout: true, recreate: true };
+    let n = crate::progscene::with_variant(nv, || plain_cases(tier));
+    let step = if tier == Tier::Thorough { 2 } else { 4 };
+    v.extend(n.into_iter().enumerate().filter(|(i, _)| i % step == 1).map(|(_, mut c)| {
+        // no handler takes anywhere near 50 ticks, so the timeout's select! never has both arms ready
         c.exec.select_choice = false;
         c
     }));
